@@ -540,7 +540,7 @@ class Function:
         return out
 
     def value_aliases(self, name):
-        """`name` plus every local whose only definition is a (cast of a) copy of it: `T *self = arg;`"""
+        """`name` plus every local all of whose definitions are (casts of) copies of it: `T *self = arg;`"""
         out = {name}
         changed = True
         while changed:
@@ -555,10 +555,11 @@ class Function:
                     elif n["k"] == "un" and ("++" in n["op"] or "--" in n["op"]) and strip_casts(n["e"])["k"] == "ref":
                         defs.setdefault(strip_casts(n["e"])["name"], []).append(None)
             for v, ds in defs.items():
-                if v in out or len(ds) != 1 or ds[0] is None:
+                if v in out or not ds or any(d is None for d in ds):
                     continue
-                r = strip_casts(ds[0])
-                if r is not None and r["k"] == "ref" and r["name"] in out and r["name"] not in defs:
+                # every definition (usually one; one per switch arm for a typed view) is a cast of a copy of the same value
+                rs = [strip_casts(d) for d in ds]
+                if all(r is not None and r["k"] == "ref" and r["name"] in out and r["name"] not in defs for r in rs):
                     out.add(v)
                     changed = True
         return out
